@@ -278,6 +278,8 @@ def gen_wellformed(r, i, specs):
     sp = SPECS_PERMISSIVE if r.chance(1, 2) else r.pick(specs)
     directed = r.chance(1, 2)
     names = r.shuffle(NAME_POOL)[:1 + r.below(5)]
+    if r.chance(1, 25):
+        names = []          # a <graph> without node or edge elements: the result still has the declared directedness
     wkey = r.pick(["weight", "weight", "d0", "w&"])
     nl = r.pick(["", "", "\n", "\n  "])
     q = r.pick(['"', '"', "'"])
@@ -303,12 +305,16 @@ def gen_wellformed(r, i, specs):
                                                    ([at("id", "G")] if r.chance(1, 3) else []) + hints)) + nl)
     exp_nodes, exp_edges = [], []
     items = [("n", n) for n in names]
-    for _ in range(r.below(6)):
+    for _ in range(r.below(6) if names else 0):
         items.append(("e", r.pick(names), r.pick(names)))
+    split_at = r.below(len(items) + 1) if (items and r.chance(1, 15)) else -1
     # nodes first mostly (so that every endpoint is declared before use), sometimes interleaved
     if r.chance(1, 4):
         items = r.shuffle(items)
-    for it in items:
+    for pos, it in enumerate(items):
+        if pos == split_at:
+            # the document goes on after a closing </graph>: a second sibling <graph> with the same edgedefault
+            parts.append("</graph>" + nl + "<graph %s>" % at("edgedefault", "directed" if directed else "undirected") + nl)
         if it[0] == "n":
             exp_nodes.append(it[1])
             form = r.below(3)
@@ -331,7 +337,9 @@ def gen_wellformed(r, i, specs):
                 wt = r.pick(WTEXT)
                 extra = '<data key="zz">5</data>' if r.chance(1, 5) else ""
                 cm = "<!-- w -->" if r.chance(1, 8) else ""
-                parts.append("<edge %s>%s<data %s>%s%s</data>%s%s</edge>" % (" ".join(ats), nl, at("key", wkey), cm, wt, extra, nl) + nl)
+                # another child with its own end tag BEFORE the weight <data> (a second attribute, a description)
+                pre = r.pick(['<data key="zz">5</data>', "<desc>x</desc>", '<data key="c">red</data>' + nl]) if r.chance(1, 5) else ""
+                parts.append("<edge %s>%s%s<data %s>%s%s</data>%s%s</edge>" % (" ".join(ats), nl, pre, at("key", wkey), cm, wt, extra, nl) + nl)
                 # a weight <data> directly after the start tag only when no whitespace text precedes it
                 exp_edges.append((u, v, wt))
         if r.chance(1, 10):
